@@ -27,7 +27,28 @@ class C15(Prop):
         return True
 
 
+class C06(Prop):
+    id = "C06"
+    coq_targets = ["Properties/C06.vo", "Corr/C06.vo"]
+    props_file = "Properties/C06.v"
+    harness_cmd = "c06"
+    n = {"quick": 700, "thorough": 15000}
+    bits = {4: "find_global result contradicts the documented resolution rules (explicit entry wins / prefix = read-only table / absent otherwise / total on closed libraries / known root resolves)",
+            8: "a read of a field is reported (or not) against the rule 'absent field of a known global, no prefix grants new fields'",
+            16: "assignment targets are not judged independently of their position / against the writability table"}
+    rule = ("generated libraries over segments {a,b,c,*} depth<=3 (4 in thorough), all field kinds, structs referring to structs, "
+            "dangling struct names; queries: keys / prefixes / extensions of keys with wildcards instantiated, and random paths "
+            "over {a,b,c,d} of depth 1..5; programs `local _ = path` and multiple assignments mixing library paths, locals, "
+            "fields of locals and call results; non-trivial = more than one key / more than one target; distinct = distinct descriptions")
+    trusted_base = [
+        "modelled: find_global, global_has_fields, lint_invalid_field_access, visit_assignment (Std/FindGlobal.v, Std/FieldAccess.v)",
+        "the trie of extract_into_tree is modelled extensionally (node exists at p iff some key has prefix p); its construction is covered by the correspondence only",
+        "name-path extraction from the AST and reference resolution are exercised through generated programs, not modelled here (C07/C13)",
+    ]
+    assumptions = ["wf_lib (no duplicate keys); query paths are non-empty and contain no '.'"]
+
+
 from .c19 import C19  # noqa: E402
 from .c16 import C16  # noqa: E402
 
-ALL = {c.id: c for c in [C15, C16, C19]}
+ALL = {c.id: c for c in [C06, C15, C16, C19]}
